@@ -10,7 +10,7 @@ UNBLOCK = ['open', 'os.remove', 'os.mkdir', 'shutil.rmtree', 'os.listdir', 'os.s
 
 
 def main(tier):
-    run = Run(PID, tier)
+    run = Run(PID, tier, level='exploration')
     jobs = []
     for cont in range(len(CONTAINERS)):
         for ci in range(len(COMP)):
@@ -26,6 +26,10 @@ def main(tier):
     jobs.append(dict(path=H, fname='_c12_foreign', params={}, timeout=300, self_reach=True, unblock=UNBLOCK, label='foreign files are refused with SignaturesFileError',
                      bounds={'contents': 'empty, plain text, FASTA, gzip FASTA, one byte, HDF5 magic + text, empty HDF5, HDF5 with look-alike datasets, HDF5 with the marker on a sub-group, SQLite header', 'file names': 'x.gs, x.h5, x.fasta, x'}))
     xprop.run_jobs(run, jobs, rung=tier)
+    run.extra['evaluations'] = sum(r.get('cells_executed', 0) for r in run.obligations)
+    run.extra['distinct_nontrivial'] = sum(r.get('cells_distinct', 0) for r in run.obligations if r.get('status') == 'holds')
+    run.extra['exhaustive'] = all(r.get('status') == 'holds' for r in run.obligations)
+    run.samples.extend({'cell': r['cell_sample']} for r in run.obligations[:6] if r.get('cell_sample'))
     xprop.note_sources(run, ['src/gambit/sigs/hdf5.py', 'src/gambit/sigs/base.py'])
     run.bounds = {'collections': 'pools described per obligation', 'files': 'written to and read from scratch files through the real h5py'}
     run.stubs = ['none: real h5py / libhdf5 on scratch files']
